@@ -157,3 +157,28 @@ def gen_store(items):
             raise Fail('common/src/vint.rs: scan limit of vint_len not found')
         return D('VINT_U32_MAX_LEN', int(m.group(1)), 'common/src/vint.rs vint_len scans at most this many bytes')
     items.append(vint_len_limit)
+
+    # ---- src/schema/document/owned_value.rs: classification of a JSON number ----
+    def json_number_dispatch():
+        f = 'src/schema/document/owned_value.rs'
+        text = strip_comments(src(f))
+        m = re.search(r'impl\s+From<serde_json::Value>\s+for\s+OwnedValue\s*\{', text)
+        if not m:
+            raise Fail(f + ': impl From<serde_json::Value> for OwnedValue not found')
+        seg = text[m.end():]
+        m2 = re.search(r'serde_json::Value::Number\(number\)\s*=>\s*\{', seg)
+        m3 = re.search(r'serde_json::Value::String', seg)
+        if not m2 or not m3:
+            raise Fail(f + ': number arm of From<serde_json::Value> not found')
+        arm = seg[m2.end():m3.start()]
+        order = re.findall(r'number\.as_(i64|u64|f64)\(\)', arm)
+        if sorted(order) != ['f64', 'i64', 'u64']:
+            raise Fail(f + ': number arm does not try as_i64 / as_u64 / as_f64 exactly once each: %r' % order)
+        ctor = {'i64': 'I64', 'u64': 'U64', 'f64': 'F64'}
+        for t in order:
+            if not re.search(r'number\.as_%s\(\)\s*\{\s*Self::%s\(val\)' % (t, ctor[t]), arm):
+                raise Fail(f + ': as_%s does not build Self::%s' % (t, ctor[t]))
+        code = {'i64': 0, 'u64': 1, 'f64': 2}
+        return DL('JSON_NUMBER_DISPATCH', [code[t] for t in order],
+                  'order in which From<serde_json::Value> for OwnedValue tries the number types (0 = as_i64, 1 = as_u64, 2 = as_f64)')
+    items.append(json_number_dispatch)
